@@ -200,6 +200,45 @@ class _ContainsInliner(ast.NodeTransformer):
         return node
 
 
+def _chain_walk_as_recursion(fn: ast.FunctionDef, name: str, sym: str) -> ast.FunctionDef | None:
+    """cur = self; while C(cur): [if F(cur): break | return X(cur)]...; cur = cur.parent   followed by   return R(cur)
+    is the recursion   if C(self): [if F(self): return R(self) | X(self)]...; return self.parent.<name>(sym)   else   return R(self)"""
+    body = [st for st in fn.body if not (isinstance(st, ast.Expr) and isinstance(st.value, ast.Constant))]
+    if len(body) != 3 or not (isinstance(body[0], ast.Assign) and isinstance(body[0].targets[0], ast.Name) and unparse(body[0].value) == "self"):
+        return None
+    cur = body[0].targets[0].id
+    loop, tail = body[1], body[2]
+    if not (isinstance(loop, ast.While) and not loop.orelse and isinstance(tail, ast.Return) and tail.value is not None and loop.body):
+        return None
+    step = loop.body[-1]
+    if not (isinstance(step, ast.Assign) and unparse(step.targets[0]) == cur and unparse(step.value) == f"{cur}.parent"):
+        return None
+
+    class _Sub(ast.NodeTransformer):
+        def visit_Name(self, n: ast.Name) -> ast.AST:
+            return ast.copy_location(ast.Name("self", ast.Load()), n) if n.id == cur else n
+
+    import copy as _copy
+
+    sub = lambda n: _Sub().visit(_copy.deepcopy(n))  # noqa: E731
+    arms: list[ast.stmt] = []
+    for st in loop.body[:-1]:
+        if not (isinstance(st, ast.If) and not st.orelse and len(st.body) == 1):
+            return None
+        if isinstance(st.body[0], ast.Break):
+            arms.append(ast.If(sub(st.test), [ast.Return(sub(tail.value))], []))
+        elif isinstance(st.body[0], ast.Return):
+            arms.append(ast.If(sub(st.test), [sub(st.body[0])], []))
+        else:
+            return None
+    if any(isinstance(x, ast.Name) and x.id == cur and isinstance(x.ctx, ast.Store) for st in loop.body[:-1] for x in ast.walk(st)):
+        return None
+    deleg = ast.Return(ast.Call(ast.Attribute(ast.Attribute(ast.Name("self", ast.Load()), "parent", ast.Load()), name, ast.Load()), [ast.Name(sym, ast.Load())], []))
+    new = _copy.copy(fn)
+    new.body = [ast.If(sub(loop.test), arms + [deleg], []), ast.Return(sub(tail.value))]
+    return ast.fix_missing_locations(new)
+
+
 def r3_lookup_chain(ctx: Ctx) -> None:
     scope_truthiness(ctx)
     vf = ctx.repo.func(SYMBOLS, "Scope.value_for")
@@ -210,7 +249,10 @@ def r3_lookup_chain(ctx: Ctx) -> None:
         if len(rets) == 1 and rets[0].value is not None and len(cont.node.body) == 1:
             vf.node = ast.fix_missing_locations(_ContainsInliner(cont.params()[1], rets[0].value).visit(vf.node))
     if any(isinstance(n, (ast.While, ast.For)) for n in walk_no_nested(vf.node)):
-        raise AnalysisError("Scope.value_for walks the scope chain with a loop; the recursive lookup facts cannot be read off")
+        rec = _chain_walk_as_recursion(vf.node, "value_for", sym)
+        if rec is None:
+            raise AnalysisError("Scope.value_for walks the scope chain with a loop that is not the plain cursor walk; the lookup facts cannot be read off")
+        vf.node = rec
     vff = return_facts(vf)
     deleg_v, own_v = f"self.parent.value_for({sym})", f"self[{sym}]"
     ctx.check({v for v, _c in vff} == {deleg_v, own_v}, "Scope.value_for:delegation", f"the only results are this scope's own entry and the parent's answer for the same name; found: {show(vff)}")
@@ -258,14 +300,16 @@ def r3_lookup_chain(ctx: Ctx) -> None:
 
 
 def get_table_own_first(gt) -> bool:
+    from ..facts import has_cond
+
     f = return_facts(gt)
     own = [(v, c) for v, c in f if v == "self.table"]
     par = [(v, c) for v, c in f if re.fullmatch(r"self\.parent\.get_table\([^()]*\)", v)]
     none = [(v, c) for v, c in f if v == "None"]
     return (len(own) >= 1 and len(par) >= 1 and len(own) + len(par) + len(none) == len(f)
-            and all(("self.table is None", False) in c for _v, c in own)
-            and all(("self.table is None", True) in c and ("self.parent", True) in c for _v, c in par)
-            and all(("self.table is None", True) in c for _v, c in none))
+            and all(has_cond(c, "self.table is None", False) for _v, c in own)
+            and all(has_cond(c, "self.table is None", True) and has_cond(c, "self.parent", True) for _v, c in par)
+            and all(has_cond(c, "self.table is None", True) for _v, c in none))
 
 
 def r4_export(ctx: Ctx) -> None:
@@ -290,7 +334,12 @@ def r4_export(ctx: Ctx) -> None:
     ctx.check(ok and ok_raise, "Resolver.restore_scope:pop", f"leaves to the parent scope; leaving the root raises; found: {show(pf)}")
     li = ctx.repo.func("a816.parse.scanner_states", "lex_identifier")
     dots = [s for s in walk_no_nested(li.node) if isinstance(s, ast.If) and unparse(s.test) == "s.peek() == '.'"]
-    ok = len(dots) == 1 and [unparse(b) for b in dots[0].body] == ["s.next()", "s.accept_run(identifier_chars)"]
+    from ..match import canon as _canon_li
+
+    runs = [c for c in calls_in(li.node) if call_name(c) == "s.accept_run" and c.args]
+    first_run = _canon_li(li.node, runs[0].args[0]) if runs else None
+    ok = len(dots) == 1 and len(dots[0].body) == 2 and unparse(dots[0].body[0]) == "s.next()" and isinstance(dots[0].body[1], ast.Expr) \
+        and call_name(dots[0].body[1].value) == "s.accept_run" and _canon_li(li.node, dots[0].body[1].value.args[0]) == first_run
     ctx.check(ok, "lex_identifier:qualified", "an identifier may carry one `.name` segment (scopename.name)")
     al = ctx.repo.func(SYMBOLS, "Scope.add_label")
     body = [unparse(s) for s in al.node.body]
